@@ -912,6 +912,9 @@ func (s *scope) interpretSlice(obj pyObject, sl *Slice) pyObject {
 	case pyList:
 		end := s.interpretSliceExpression(obj, sl.End, newPyInt(len(t)))
 		return slices.Clone(t[start:end]) // a slice is a new list, it must not share storage with t
+	case pyFrozenList:
+		end := s.interpretSliceExpression(obj, sl.End, newPyInt(len(t.pyList)))
+		return slices.Clone(t.pyList[start:end])
 	case pyString:
 		end := s.interpretSliceExpression(obj, sl.End, newPyInt(len(t)))
 		return t[start:end]
@@ -954,8 +957,8 @@ func (s *scope) interpretIdentStatement(stmt *IdentStatement) pyObject {
 		}
 	} else if stmt.Unpack != nil {
 		obj := s.interpretExpression(stmt.Unpack.Expr)
-		l, ok := obj.(pyList)
-		s.Assert(ok, "Cannot unpack type %s", l.Type())
+		l, ok := asList(obj)
+		s.Assert(ok, "Cannot unpack type %s", obj.Type())
 		// This is a little awkward because the first item here is the name of the ident node.
 		s.Assert(len(l) == len(stmt.Unpack.Names)+1, "Wrong number of items to unpack; expected %d, got %d", len(stmt.Unpack.Names)+1, len(l))
 		s.Set(stmt.Name, l[0])
@@ -1053,7 +1056,7 @@ func (s *scope) unpackNames(names []string, obj pyObject) {
 	if len(names) == 1 {
 		s.Set(names[0], obj)
 	} else {
-		l, ok := obj.(pyList)
+		l, ok := asList(obj)
 		s.Assert(ok, "Cannot unpack %s into %s", obj.Type(), names)
 		s.Assert(len(l) == len(names), "Incorrect number of values to unpack; expected %d, got %d", len(names), len(l))
 		for i, name := range names {
